@@ -3607,7 +3607,7 @@ class GraphicObject:
         ):
             try:
                 self.stroke.opacity = float(stroke_opacity)
-            except ValueError:
+            except (ValueError, OverflowError):
                 pass
         fill = values.get(SVG_ATTR_FILL)
         self.fill = Color(fill) if fill is not None else None
@@ -3620,7 +3620,7 @@ class GraphicObject:
         ):
             try:
                 self.fill.opacity = float(fill_opacity)
-            except ValueError:
+            except (ValueError, OverflowError):
                 pass
         self.stroke_width = Length(values.get("stroke_width", 1.0)).value()
         self.stroke_width = Length(
